@@ -51,6 +51,9 @@ type R struct {
 	Trace  []Probe
 	// Captured is filled by (verif:capture) inside handlers.
 	Captured []*lisp.LVal
+	// Callback is the lisp function installed by (verif:set-callback fn); the host
+	// handler verif:hh-call calls back into it.
+	Callback *lisp.LVal
 	// DepthSamples is filled by (verif:depth).
 	DepthSamples []DepthSample
 	// OnProbe, when set, is called by every (verif:probe tag ...) after the event was
@@ -195,6 +198,37 @@ func (r *R) addProbes(env *lisp.LEnv) {
 			r.Captured = append(r.Captured, e.Runtime.CurrentCondition())
 			return lisp.Nil()
 		}},
+		// Host functions meant to be bound DIRECTLY as handler-bind handlers (a host
+		// logging / reporting function): each is called with the condition name and the
+		// error's data, records what the host sees as the condition being handled and an
+		// effect, and then returns a value, raises an ordinary error, panics, or calls
+		// back into lisp.
+		bdef{"hh-value", lisp.Formals("c", lisp.VarArgSymbol, "data"), func(e *lisp.LEnv, a *lisp.LVal) *lisp.LVal {
+			r.hostHandler(e, "hh-value", a)
+			return lisp.QExpr(append([]*lisp.LVal{lisp.Symbol("host-handled")}, a.Cells...))
+		}},
+		bdef{"hh-fail", lisp.Formals("c", lisp.VarArgSymbol, "data"), func(e *lisp.LEnv, a *lisp.LVal) *lisp.LVal {
+			r.hostHandler(e, "hh-fail", a)
+			return e.ErrorCondition("hh-failed", a.Cells[0])
+		}},
+		bdef{"hh-panic", lisp.Formals("c", lisp.VarArgSymbol, "data"), func(e *lisp.LEnv, a *lisp.LVal) *lisp.LVal {
+			r.hostHandler(e, "hh-panic", a)
+			panic(PanicValue)
+		}},
+		bdef{"hh-call", lisp.Formals("c", lisp.VarArgSymbol, "data"), func(e *lisp.LEnv, a *lisp.LVal) *lisp.LVal {
+			r.hostHandler(e, "hh-call", a)
+			if r.Callback == nil {
+				return e.ErrorCondition("hh-no-callback", a.Cells[0])
+			}
+			return e.FunCall(r.Callback, lisp.SExpr(append([]*lisp.LVal(nil), a.Cells...)))
+		}},
+		bdef{"set-callback", lisp.Formals("fn"), func(e *lisp.LEnv, a *lisp.LVal) *lisp.LVal {
+			if a.Cells[0].Type != lisp.LFun {
+				return e.ErrorCondition("set-callback-not-a-function", a.Cells[0])
+			}
+			r.Callback = a.Cells[0]
+			return lisp.Nil()
+		}},
 		bdef{"depth", lisp.Formals(), func(e *lisp.LEnv, a *lisp.LVal) *lisp.LVal {
 			fr := e.Runtime.Stack.Frames
 			ds := DepthSample{Height: len(fr)}
@@ -215,6 +249,22 @@ func (r *R) addProbes(env *lisp.LEnv) {
 			return e.ErrorCondition(c.Str, args...)
 		}},
 	)
+}
+
+// hostHandler is the common part of the verif:hh-* handlers: the capture and the effect.
+func (r *R) hostHandler(e *lisp.LEnv, tag string, a *lisp.LVal) {
+	r.Captured = append(r.Captured, e.Runtime.CurrentCondition())
+	var sb strings.Builder
+	var trees []*tree.T
+	for i, v := range a.Cells {
+		if i > 0 {
+			sb.WriteByte(' ')
+		}
+		sb.WriteString(v.String())
+		trees = append(trees, tree.FromLVal(v))
+	}
+	r.Trace = append(r.Trace, Probe{Tag: tag, Vals: sb.String(), Trees: trees, Steps: e.Runtime.Steps(),
+		Height: len(e.Runtime.Stack.Frames), Nesting: e.Runtime.EvalNesting()})
 }
 
 // Transcript is the observable outcome of one top-level evaluation.
